@@ -405,10 +405,9 @@ theorem signer_unchecked_full_false : ¬ C12_signer_full Signer.unchecked := by
   intro h
   exact (h pinnedTables true false (.hash true) signerWitness signerWitness_wireTyped).2 signer_unchecked_witness
 
-/-- … which is the code of the tree under verification: OPEN FINDING `sign:panic interface conversion`. -/
-theorem signer_current_code : Signer.currentCode = Signer.unchecked := rfl
-
-theorem C12_signer_full_false : ¬ C12_signer_full Signer.currentCode := signer_unchecked_full_false
+/-- … which was the code before the repair of finding `sign:ecdsa-key-assertion-panic`; the tree under
+    verification has the checked assertions. -/
+theorem signer_current_code : Signer.currentCode = Signer.checked := rfl
 
 /-- `Signer` itself never panics against a real server, in either variant … -/
 theorem signer_never_panics_on_wire (v : Signer.Variant) (t : Tables) (priv pub : Bool) (script : List Signer.Answer)
@@ -443,6 +442,9 @@ theorem signer_checked_never_panics (t : Tables) (priv pub : Bool) (o : Signer.S
 
 theorem signer_checked_full : C12_signer_full Signer.checked :=
   fun t priv pub o script _ => signer_checked_never_panics t priv pub o script
+
+/-- the full statement holds of the tree under verification. -/
+theorem C12_signer_full_holds : C12_signer_full Signer.currentCode := signer_checked_full
 
 /-- `Signer` succeeds only when EVERY exchange it made was accepted — two GetAttributes
     responses, then one Get response, each a single successful item carrying the response payload of the
